@@ -26,6 +26,7 @@ CONFIGS = [
      'caps': {'four_bytes_as': False, 'route_refresh': True, 'cisco_route_refresh': True, 'enhanced_route_refresh': True,
               'graceful_restart': False, 'cisco_multi_session': False, 'add_path': None, 'afi_safi': [[1, 1]]}},
     {'local_as': 65535, 'remote_as': 65534},
+    {'hold_time': 5, 'connect_retry_time': 7, 'idle_hold_time': 2},
     {'local_as': 65535, 'remote_as': 65534,
      'caps': {'four_bytes_as': False, 'route_refresh': True, 'cisco_route_refresh': False, 'enhanced_route_refresh': False,
               'graceful_restart': False, 'cisco_multi_session': False, 'add_path': None, 'afi_safi': [[1, 1]]}},
@@ -252,10 +253,11 @@ def run(seed, tier, driver):
     for conf in CONFIGS:
         full = dict(S.DEFAULT_CFG); full.update(conf)
         pool = SG.message_pool(full['remote_as'])
-        opens = [(l, b) for l, b in pool if l in ('open_ok', 'open_nocaps', 'open_hold0', 'open_hold3', 'open_hold65535')]
+        opens = [(l, b) for l, b in pool if l in ('open_ok', 'open_nocaps', 'open_hold0', 'open_hold3', 'open_hold65535',
+                                                  'open_hold4', 'open_hold8', 'open_hold20')]
         follow = [(l, b) for l, b in pool if not l.startswith('open') and not l.startswith('bad_')]
         if tier == 'quick':
-            opens = opens[:1] + r.sample(opens[1:], 2)
+            opens = opens[:1] + r.sample(opens[1:], 3)
         for ol, ob in opens:
             for fl, fb in follow:
                 p = Pair(conf, driver, res)
@@ -292,6 +294,7 @@ def run(seed, tier, driver):
                 res.stats.hit('script_' + fl.split('_')[0])
     two_sessions(driver, res, r, tier)
     handler_faults(res, r, tier)
+    octet_tables(driver, res, r, tier)
     nwalks = 150 if tier == 'quick' else 6000
     for i in range(nwalks):
         conf = r.choice(CONFIGS)
@@ -348,6 +351,37 @@ def two_sessions(driver, res, r, tier):
                 cid = len(p.sim.world.connectors) - 1
             res.stats.case(('two-sessions', jdump(conf), a, b), sample=None)
             res.stats.hit('two_sessions')
+
+
+def octet_tables(driver, res, r, tier):
+    """Octets of a message that index a table in the code, EXHAUSTIVELY, in each session state: every message type code
+    (with an empty and a 4-octet body) and every NOTIFICATION (error code, sub-code) the constants know plus codes they do
+    not.  Lockstep with the model; the RFC oracle of the Monitor judges the reaction (a NOTIFICATION ends the session, an
+    unknown type is answered (1,3), ...).  A constant table with a hole used to make the agent drop a NOTIFICATION."""
+    conf = CONFIGS[0]
+    full = dict(S.DEFAULT_CFG); full.update(conf)
+    pool = dict(SG.message_pool(full['remote_as']))
+    msgs = []
+    for code in list(range(0, 10)) + [255]:
+        for sub in list(range(0, 13)) + [255]:
+            msgs.append(('notif_%d_%d' % (code, sub), SG.frame(3, bytes([code, sub]))))
+    types = range(256) if tier != 'quick' else list(range(0, 8)) + [127, 128, 129, 254, 255]
+    for ty in types:
+        msgs.append(('type_%d_empty' % ty, SG.frame(ty, b'')))
+        msgs.append(('type_%d_4' % ty, SG.frame(ty, b'\x00\x01\x00\x01')))
+    prefixes = {'OPENSENT': [], 'OPENCONFIRM': ['open_ok'], 'ESTABLISHED': ['open_ok', 'keepalive']}
+    for st, pre in sorted(prefixes.items()):
+        for label, b in msgs:
+            p = Pair(conf, driver, res)
+            p.step({'k': 'boot'})
+            p.step({'k': 'connok', 'c': 0})
+            for l in pre:
+                p.step({'k': 'chunk', 'c': 0, 'hex': pool[l].hex()})
+            if p.last['state'] != st or not p.sim.enabled({'k': 'chunk', 'c': 0}):
+                continue
+            p.step({'k': 'chunk', 'c': 0, 'hex': b.hex()})
+            res.stats.case(('octets', st, label), sample=None)
+            res.stats.hit('octet_tables_' + st)
 
 
 class _Boom(Exception):
